@@ -64,6 +64,14 @@ inductive Start where
 /-- `str.strip()` -/
 def strip (s : List Sym) : List Sym := (dropWs (dropWs s).reverse).reverse
 
+/-- `_Config.get_config("storage", key, default)` for a non-boolean key: the item configparser holds — the text
+    after `key =`, `.strip()`ped — whenever the option is present, **also when it is blank** (`some []`); the
+    default (`none`) only when the option is absent.  (Seed C48-e turned a blank item into the default.) -/
+def getConfig (raw : Option (List Sym)) : Option (List Sym) :=
+  match raw with
+  | none => none
+  | some v => some (strip v)
+
 /-- `config.get_config("storage", key, default, boolean=True)` -/
 def getBool (v : Option BoolVal) (dflt : Bool) : Except StartErr Bool :=
   match v with
@@ -82,9 +90,9 @@ def liftRes {α : Type} (r : Res α) (ifNone : α) : Except StartErr α :=
 
 /-- `reserved = parse_abbreviated_size(get_config("storage","reserved_space",None))`, `None → 0` -/
 def readReserved (c : StorageCfg) : Except StartErr Nat :=
-  match c.reservedSpace with
+  match getConfig c.reservedSpace with
   | none => .ok 0
-  | some v => liftRes (parseSize (strip v)) 0
+  | some v => liftRes (parseSize v) 0
 
 /-- `expire.mode`: required when expiry is enabled, else default "age" -/
 def readMode (c : StorageCfg) (enabled : Bool) : Except StartErr ModeVal :=
@@ -94,16 +102,16 @@ def readMode (c : StorageCfg) (enabled : Bool) : Except StartErr ModeVal :=
 
 /-- `expire.override_lease_duration`: parsed whenever present (whatever the mode) -/
 def readOverride (c : StorageCfg) : Except StartErr (Option Nat) :=
-  match c.overrideLeaseDuration with
-  | none => .ok none
-  | some v => (liftRes (parseDuration (strip v)) 0).map some
+  match getConfig c.overrideLeaseDuration with
+  | none => .ok none                    -- `if o_l_d is not None:`
+  | some v => (liftRes (parseDuration v) 0).map some
 
 /-- `expire.cutoff_date`: read (and required) only when `mode == "cutoff-date"` -/
 def readCutoff (c : StorageCfg) (mode : ModeVal) : Except StartErr (Option Int) :=
   if mode = .cutoff then
-    match c.cutoffDate with
+    match getConfig c.cutoffDate with
     | none => .error .missingEntry
-    | some v => (liftRes (parseDate (strip v)) 0).map some
+    | some v => (liftRes (parseDate v) 0).map some
   else .ok none
 
 /-- `get_anonymous_storage_server` up to and including `StorageServer(...)`/`LeaseCheckingCrawler(...)` -/
@@ -127,5 +135,48 @@ def startStorage (c : StorageCfg) : Start :=
   match startStorageE c with
   | .ok s => .started s
   | .error e => .error e
+
+/-! ### the same section with every value still text: `configparser.getboolean` and the mode literals -/
+
+def trueWords : List (List Sym) :=      -- "1" "yes" "true" "on"
+  [[.dig 1], wordSyms [121, 101, 115], wordSyms [116, 114, 117, 101], wordSyms [111, 110]]
+def falseWords : List (List Sym) :=     -- "0" "no" "false" "off"
+  [[.dig 0], wordSyms [110, 111], wordSyms [102, 97, 108, 115, 101], wordSyms [111, 102, 102]]
+
+/-- `configparser.getboolean`: `BOOLEAN_STATES[value.lower()]` on the stripped item, `ValueError` if not a key.
+    (Here `dig` stands for the ASCII digit only: the harness maps every non-ASCII character of a literal-compared
+    value to `other`.) -/
+def classifyBool (v : List Sym) : BoolVal :=
+  let w := (strip v).map lowerSym
+  if trueWords.contains w then .t else if falseWords.contains w then .f else .bad
+
+/-- `mode == "age"` / `mode == "cutoff-date"` on the stripped item (case-sensitive literals) -/
+def classifyMode (v : List Sym) : ModeVal :=
+  let w := strip v
+  if w = wordSyms [97, 103, 101] then .age
+  else if w = wordSyms [99, 117, 116, 111, 102, 102, 45, 100, 97, 116, 101] then .cutoff
+  else .other
+
+structure RawStorageCfg where
+  readonly : Option (List Sym) := none
+  reservedSpace : Option (List Sym) := none
+  debugDiscard : Option (List Sym) := none
+  expireEnabled : Option (List Sym) := none
+  expireMode : Option (List Sym) := none
+  overrideLeaseDuration : Option (List Sym) := none
+  cutoffDate : Option (List Sym) := none
+  expireImmutable : Option (List Sym) := none
+  expireMutable : Option (List Sym) := none
+  deriving DecidableEq, Repr
+
+def readSection (r : RawStorageCfg) : StorageCfg :=
+  { readonly := r.readonly.map classifyBool, reservedSpace := r.reservedSpace,
+    debugDiscard := r.debugDiscard.map classifyBool, expireEnabled := r.expireEnabled.map classifyBool,
+    expireMode := r.expireMode.map classifyMode, overrideLeaseDuration := r.overrideLeaseDuration,
+    cutoffDate := r.cutoffDate, expireImmutable := r.expireImmutable.map classifyBool,
+    expireMutable := r.expireMutable.map classifyBool }
+
+/-- tahoe.cfg text → `get_anonymous_storage_server` -/
+def startStorageRaw (r : RawStorageCfg) : Start := startStorage (readSection r)
 
 end Tahoe.Config
